@@ -54,7 +54,7 @@
 (***************************************************************************)
 EXTENDS Cplx, Json, IOUtils
 
-CONSTANTS Insts,     \* sequence of instance records (see FileInsts / DesignInsts)
+CONSTANTS Design,    \* TRUE: the built-in exhaustive design instances; FALSE: instances from IOEnv.CPMC_INST
           Emit       \* TRUE: write every reached state to IOEnv.CPMC_OUT
 
 (***************************************************************************)
@@ -77,6 +77,8 @@ RNeg(a) == IF IsNaR(a) THEN NaR ELSE <<-a[1], a[2]>>
 RMul(a, b) ==
   IF IsNaR(a) \/ IsNaR(b) THEN NaR
   ELSE IF a[1] = 0 \/ b[1] = 0 THEN ZERO
+  ELSE IF a[2] = 1 /\ b[2] = 1                          \* integers: no gcd needed
+       THEN IF MulFits(a[1], b[1]) THEN <<a[1] * b[1], 1>> ELSE NaR
   ELSE LET g1 == Gcd(Abs(a[1]), b[2])
            g2 == Gcd(Abs(b[1]), a[2])
            n1 == a[1] \div g1
@@ -88,6 +90,10 @@ RAdd(a, b) ==
   IF IsNaR(a) \/ IsNaR(b) THEN NaR
   ELSE IF a[1] = 0 THEN b
   ELSE IF b[1] = 0 THEN a
+  ELSE IF a[2] = b[2]                                   \* same denominator (in particular integers)
+       THEN IF AddFits(a[1], b[1])
+            THEN (IF a[2] = 1 THEN <<a[1] + b[1], 1>> ELSE Norm(a[1] + b[1], a[2]))
+            ELSE NaR
   ELSE LET g  == Gcd(a[2], b[2])
            da == a[2] \div g
            db == b[2] \div g
@@ -102,38 +108,34 @@ RRecip(a) == IF IsNaR(a) \/ a[1] = 0 THEN NaR
 RDiv(a, b) == RMul(a, RRecip(b))
 RPos(a)    == a[2] # 0 /\ a[1] > 0
 RIsZero(a) == a[2] # 0 /\ a[1] = 0
-\* Sum of a sequence of rationals.  (No LAMBDA/FoldSet here on purpose: TLC re-evaluates every
-\* LET-bound name and operator parameter at each reference inside a LAMBDA body, which turns the
-\* linear algebra below from polynomial into exponential work.)
-RECURSIVE RSumTo(_, _)
-RSumTo(s, k) == IF k = 0 THEN ZERO ELSE RAdd(s[k], RSumTo(s, k - 1))
-RSumSeq(s) == RSumTo(s, Len(s))
+RSum(f(_), S) == FoldSet(LAMBDA x, acc : RAdd(f(x), acc), ZERO, S)
 RECURSIVE RPow(_, _)
 RPow(a, k) == IF k = 0 THEN ONE ELSE RMul(a, RPow(a, k - 1))
 \* 0 < a < 10^-6: too close to the code's 1e-8 threshold to be modelled by "a <= 0"
 Tiny(a) == RPos(a) /\ a[2] \div a[1] >= 1000000
 
-Idx(k) == [i \in 1..k |-> i]
+Idx(k) == TLCEval([i \in 1..k |-> i])
 Rows(A) == DOMAIN A
 MatHasNaR(A) == \E i \in DOMAIN A : \E j \in DOMAIN A[i] : IsNaR(A[i][j])
 RMatMul(A, B) ==
-  TLCEval([i \in DOMAIN A |-> [j \in DOMAIN B[1] |->
-             RSumSeq([k \in DOMAIN B |-> RMul(A[i][k], B[k][j])])]])
+  TLCEval([i \in DOMAIN A |-> TLCEval([j \in DOMAIN B[1] |->
+             RSum(LAMBDA k : RMul(A[i][k], B[k][j]), DOMAIN B)])])
 
 \* determinant of the k x k minor rows[1..k] x cols[1..k] (Laplace along the last column)
 RECURSIVE RDetRC(_, _, _, _)
 RDetRC(M, rows, cols, k) ==
   IF k = 0 THEN ONE
-  ELSE RSumSeq([i \in 1..k |->
+  ELSE RSum(LAMBDA i :
               IF RIsZero(M[rows[i]][cols[k]]) THEN ZERO
               ELSE LET t == RMul(M[rows[i]][cols[k]], RDetRC(M, RemoveAt(rows, i), cols, k - 1))
-                   IN  IF Par(i + k) = 1 THEN t ELSE RNeg(t)])
+                   IN  IF Par(i + k) = 1 THEN t ELSE RNeg(t),
+            1..k)
 RDet(M, k) == RDetRC(M, Idx(k), Idx(k), k)
 \* inverse of a k x k matrix by the adjugate; d = its determinant (non-zero)
 RInv(M, k, d) ==
-  TLCEval([a \in 1..k |-> [b \in 1..k |->
+  TLCEval([a \in 1..k |-> TLCEval([b \in 1..k |->
      LET c == RDetRC(M, RemoveAt(Idx(k), b), RemoveAt(Idx(k), a), k - 1)
-     IN  RDiv(IF Par(a + b) = 1 THEN c ELSE RNeg(c), d)]])
+     IN  RDiv(IF Par(a + b) = 1 THEN c ELSE RNeg(c), d)])])
 
 (***************************************************************************)
 (* 2. Trial-side formulas (notes/cpmc.ipynb)                               *)
@@ -142,14 +144,14 @@ NEl(I) == I.nu + I.nd
 M2(I)  == 2 * I.n
 \* block-diagonal 2n x N form of the walker
 Wg(I, wu, wd) ==
-  TLCEval([P \in 1..M2(I) |-> [a \in 1..NEl(I) |->
+  TLCEval([P \in 1..M2(I) |-> TLCEval([a \in 1..NEl(I) |->
      IF P <= I.n /\ a <= I.nu THEN wu[P][a]
      ELSE IF P > I.n /\ a > I.nu THEN wd[P - I.n][a - I.nu]
-     ELSE ZERO]])
+     ELSE ZERO])])
 \* overlap matrix C^T Wg and overlap
 OMat(I, wg) ==
-  TLCEval([b \in 1..NEl(I) |-> [a \in 1..NEl(I) |->
-     RSumSeq([P \in 1..M2(I) |-> RMul(I.c[P][b], wg[P][a])])]])
+  TLCEval([b \in 1..NEl(I) |-> TLCEval([a \in 1..NEl(I) |->
+     RSum(LAMBDA P : RMul(I.c[P][b], wg[P][a]), 1..M2(I))])])
 Ov(I, wu, wd) == RDet(OMat(I, Wg(I, wu, wd)), NEl(I))
 
 \* Green's function from scratch; requires a non-zero overlap ov
@@ -157,14 +159,14 @@ GreenScratch(I, wu, wd, ov) ==
   LET wg  == Wg(I, wu, wd)
       inv == RInv(OMat(I, wg), NEl(I), ov)
       x   == RMatMul(wg, inv)                              \* 2n x N
-  IN  TLCEval([P \in 1..M2(I) |-> [Q \in 1..M2(I) |->
-         RSumSeq([b \in 1..NEl(I) |-> RMul(x[Q][b], I.c[P][b])])]])
+  IN  TLCEval([P \in 1..M2(I) |-> TLCEval([Q \in 1..M2(I) |->
+         RSum(LAMBDA b : RMul(x[Q][b], I.c[P][b]), 1..NEl(I))])])
 
 \* multiply row P of the generalised walker by f (P addresses (up,P) or (down,P-n))
 ScaleRow(I, wu, wd, P, f) ==
   IF P <= I.n
-  THEN <<[wu EXCEPT ![P] = [a \in DOMAIN wu[P] |-> RMul(f, wu[P][a])]], wd>>
-  ELSE <<wu, [wd EXCEPT ![P - I.n] = [a \in DOMAIN wd[P - I.n] |-> RMul(f, wd[P - I.n][a])]]>>
+  THEN <<[wu EXCEPT ![P] = TLCEval([a \in DOMAIN wu[P] |-> RMul(f, wu[P][a])])], wd>>
+  ELSE <<wu, [wd EXCEPT ![P - I.n] = TLCEval([a \in DOMAIN wd[P - I.n] |-> RMul(f, wd[P - I.n][a])])]>>
 \* B = Diag({P, 1+cP}, {Q, 1+cQ}) applied to the walker
 ApplyB(I, wu, wd, P, Q, cP, cQ) ==
   LET s1 == ScaleRow(I, wu, wd, P, RAdd(ONE, cP))
@@ -188,10 +190,10 @@ GreenUpdate(g, r, P, Q, cP, cQ, m) ==
                 RSub(RMul(cQ, RSub(RMul(g[P][Q], sgQ[b]), RMul(g[Q][Q], sgP[b]))), sgP[b])])
       vQ  == TLCEval([b \in 1..m |->
                 RSub(RMul(cP, RSub(RMul(g[Q][P], sgP[b]), RMul(g[P][P], sgQ[b]))), sgQ[b])])
-  IN  TLCEval([a \in 1..m |-> [b \in 1..m |->
-         RAdd(g[a][b], RAdd(RMul(aP, RMul(g[a][P], vP[b])), RMul(aQ, RMul(g[a][Q], vQ[b]))))]])
+  IN  TLCEval([a \in 1..m |-> TLCEval([b \in 1..m |->
+         RAdd(g[a][b], RAdd(RMul(aP, RMul(g[a][P], vP[b])), RMul(aQ, RMul(g[a][Q], vQ[b]))))])])
 
-Trace(g, m) == RSumSeq([P \in 1..m |-> g[P][P]])
+Trace(g, m) == RSum(LAMBDA P : g[P][P], 1..m)
 
 (***************************************************************************)
 (* 3. The step model (propagator_cpmc.propagate, one walker)               *)
@@ -232,12 +234,12 @@ HalfStep(I, s) ==
 
 \* candidate ratios of the two fields at site k (Wick, from the tracked Green's function)
 SiteRatios(I, g, k) ==
-  [f \in 1..2 |-> RatioWick(g, k, I.n + k, RSub(HSC(I, f - 1)[1], ONE), RSub(HSC(I, f - 1)[2], ONE))]
+  TLCEval([f \in 1..2 |-> RatioWick(g, k, I.n + k, RSub(HSC(I, f - 1)[1], ONE), RSub(HSC(I, f - 1)[2], ONE))])
 
 \* the update of site k with field x
 SiteStep(I, s, k, x) ==
   LET r    == SiteRatios(I, s.gr, k)
-      rc   == [f \in 1..2 |-> Clamp(r[f])]
+      rc   == TLCEval([f \in 1..2 |-> Clamp(r[f])])
       tot  == RAdd(rc[1], rc[2])
       c    == HSC(I, x)
       rx   == rc[x + 1]
@@ -276,30 +278,31 @@ StateHasNaR(s) ==
 (***************************************************************************)
 CfgSeq(I) == LET ua == SetToSeq(kSubset(I.nu, 1..I.n))
                  da == SetToSeq(kSubset(I.nd, 1..I.n))
-             IN  [t \in 1..(Len(ua) * Len(da)) |->
-                    <<Sorted(ua[((t - 1) \div Len(da)) + 1]), Sorted(da[((t - 1) % Len(da)) + 1])>>]
+             IN  TLCEval([t \in 1..(Len(ua) * Len(da)) |->
+                    <<Sorted(ua[((t - 1) \div Len(da)) + 1]), Sorted(da[((t - 1) % Len(da)) + 1])>>])
 SDVecR(I, wu, wd) ==
   LET cs == CfgSeq(I)
-  IN  [t \in DOMAIN cs |-> RMul(RDetRC(wu, cs[t][1], Idx(I.nu), I.nu),
-                                RDetRC(wd, cs[t][2], Idx(I.nd), I.nd))]
-VZero(I)       == [t \in DOMAIN CfgSeq(I) |-> ZERO]
-VAddR(u, v)    == [t \in DOMAIN u |-> RAdd(u[t], v[t])]
-VScaleR(k, v)  == [t \in DOMAIN v |-> RMul(k, v[t])]
+  IN  TLCEval([t \in DOMAIN cs |-> RMul(RDetRC(wu, cs[t][1], Idx(I.nu), I.nu),
+                                        RDetRC(wd, cs[t][2], Idx(I.nd), I.nd))])
+VZero(I)       == TLCEval([t \in DOMAIN CfgSeq(I) |-> ZERO])
+VAddR(u, v)    == TLCEval([t \in DOMAIN u |-> RAdd(u[t], v[t])])
+VScaleR(k, v)  == TLCEval([t \in DOMAIN v |-> RMul(k, v[t])])
 VHasNaR(v)     == \E t \in DOMAIN v : IsNaR(v[t])
 \* second-quantised one-body transformation: the orbital transformation (mu, md) lifted to the
 \* sector (compound matrices); for mu = md = expm(-dt K/2) this is exp(-dt K^/2)
 MHat(I, v) ==
   LET cs == CfgSeq(I)
-  IN  [t \in DOMAIN cs |->
-        RSumSeq([d \in DOMAIN cs |->
+  IN  TLCEval([t \in DOMAIN cs |->
+        RSum(LAMBDA d :
            IF RIsZero(v[d]) THEN ZERO ELSE
            RMul(RMul(RDetRC(I.mu, cs[t][1], cs[d][1], I.nu),
-                     RDetRC(I.md, cs[t][2], cs[d][2], I.nd)), v[d])])]
+                     RDetRC(I.md, cs[t][2], cs[d][2], I.nd)), v[d]), DOMAIN cs)])
 \* prod_i exp(-dt U n_i_up n_i_dn) with e^{-dt U} = p q: diagonal, (p q)^(number of doubly occupied sites)
 EDtU(I) == RMul(I.hs[1], I.hs[2])
 DHat(I, v) ==
   LET cs == CfgSeq(I)
-  IN  [t \in DOMAIN cs |-> RMul(RPow(EDtU(I), Cardinality(Range1(cs[t][1]) \cap Range1(cs[t][2]))), v[t])]
+  IN  TLCEval([t \in DOMAIN cs |->
+        RMul(RPow(EDtU(I), Cardinality(Range1(cs[t][1]) \cap Range1(cs[t][2]))), v[t])])
 
 \* right-hand side of the property: M^ prod_i(1/2(B_i^0+B_i^1)) M^ |W>/o  (times the initial weight)
 Rhs(I) ==
@@ -361,6 +364,38 @@ GridAdj(lx, ly) ==      \* site number (0-based) = row * lx + column, periodic i
   IN  [i \in 1..(lx * ly) |-> [j \in 1..(lx * ly) |-> IF i # j /\ nb(i, j) THEN 1 ELSE 0]]
 LatAdj(l) == IF l.kind = "chain" THEN ChainAdj(l.lx) ELSE GridAdj(l.lx, l.ly)
 AdjOK(I) == I.lat.kind = "none" \/ I.adj = LatAdj(I.lat)
+
+(***************************************************************************)
+(* Instances.  File mode: one JSON record per line,                        *)
+(*   id, n, nu, nd, c (2n x N), wu, wd, w0, mu, md, hs = <<p, q>>,         *)
+(*   cset = <<<<cP, cQ>>, ...>>, pairs (BOOLEAN), lat = [kind, lx, ly], adj*)
+(* all numbers rationals <<num, den>> except adj (0/1).                    *)
+(* Design mode: every walker with entries in {-1,0,1} (n = 2, one electron *)
+(* per spin) against UHF and GHF trials, two half-step matrices and two    *)
+(* HS pairs - small enough to be exhaustive, and overflow-free.            *)
+(***************************************************************************)
+FileInsts == ndJsonDeserialize(IOEnv.CPMC_INST)
+
+RM(A) == TLCEval([i \in DOMAIN A |-> TLCEval([j \in DOMAIN A[i] |-> RI(A[i][j])])])
+DVals   == {-1, 0, 1}
+DTrials == { <<<<1, 0>>, <<1, 0>>, <<0, 1>>, <<0, 1>>>>,           \* UHF, uniform density
+             <<<<2, 0>>, <<1, 0>>, <<0, 1>>, <<0, -1>>>>,          \* UHF, non-uniform density
+             <<<<1, 1>>, <<0, 1>>, <<1, 0>>, <<1, -1>>>>,          \* GHF
+             <<<<1, 0>>, <<1, 1>>, <<-1, 2>>, <<0, 1>>>> }         \* GHF
+DMats   == { <<<<2, 1>>, <<1, 2>>>>,                               \* 2 I + adjacency of the 2-chain
+             <<<<1, 1>>, <<0, 1>>>> }
+DHS     == { <<<<3, 2>>, <<1, 2>>>>, <<<<5, 4>>, <<3, 4>>>> }
+DCset   == << <<<<1, 2>>, <<-1, 2>>>>, <<<<-1, 2>>, <<1, 2>>>>, <<<<2, 1>>, <<-1, 3>>>>,
+              <<<<-1, 1>>, <<1, 2>>>>, <<<<-3, 2>>, <<1, 1>>>> >>
+DesignSet ==
+  { [id |-> 0, n |-> 2, nu |-> 1, nd |-> 1, c |-> RM(T),
+     wu |-> RM(<<<<x1>>, <<x2>>>>), wd |-> RM(<<<<y1>>, <<y2>>>>), w0 |-> ONE,
+     mu |-> RM(M), md |-> RM(M), hs |-> h, cset |-> DCset, pairs |-> TRUE,
+     lat |-> [kind |-> "chain", lx |-> 2, ly |-> 1], adj |-> ChainAdj(2)] :
+       x1 \in DVals, x2 \in DVals, y1 \in DVals, y2 \in DVals, T \in DTrials, M \in DMats, h \in DHS }
+DesignInsts == SetToSeq({I \in DesignSet : ~RIsZero(Ov(I, I.wu, I.wd))})
+\* a constant-level definition: TLC evaluates it once (a cfg substitution would be re-evaluated at every use)
+Insts == IF Design THEN DesignInsts ELSE FileInsts
 
 (***************************************************************************)
 (* The state machine.                                                      *)
@@ -433,7 +468,7 @@ Half2 == /\ phase = "sites" /\ site = Inst.n + 1
 
 \* fast-update theorem data for the ordered pair (P, Q) and every listed pair of constants
 PairResult(I, s, P, Q) ==
-  [k \in DOMAIN I.cset |->
+  TLCEval([k \in DOMAIN I.cset |->
      LET cP == I.cset[k][1]
          cQ == I.cset[k][2]
          rd == RatioDet(I, s.wu, s.wd, s.ov, P, Q, cP, cQ)
@@ -443,7 +478,7 @@ PairResult(I, s, P, Q) ==
          def == RPos(rd) \/ RPos(RNeg(rd))                  \* ratio non-zero (and not NaR)
      IN  [rd |-> rd, rw |-> rw,
           gs |-> IF def THEN GreenScratch(I, w2[1], w2[2], o2) ELSE <<>>,
-          gu |-> IF def THEN GreenUpdate(s.gr, rw, P, Q, cP, cQ, M2(I)) ELSE <<>>]]
+          gu |-> IF def THEN GreenUpdate(s.gr, rw, P, Q, cP, cQ, M2(I)) ELSE <<>>]])
 
 Pair(P, Q) == /\ phase = "start" /\ P # Q
               /\ Inst.pairs
@@ -526,33 +561,4 @@ NeverFreeSum     == ~(phase = "sum" /\ aux.allfree)
 NeverConstrained == ~(phase = "sum" /\ ~aux.allfree)
 NeverDead        == phase # "dead"
 
-(***************************************************************************)
-(* Instances.  File mode: one JSON record per line,                        *)
-(*   id, n, nu, nd, c (2n x N), wu, wd, w0, mu, md, hs = <<p, q>>,         *)
-(*   cset = <<<<cP, cQ>>, ...>>, pairs (BOOLEAN), lat = [kind, lx, ly], adj*)
-(* all numbers rationals <<num, den>> except adj (0/1).                    *)
-(* Design mode: every walker with entries in {-1,0,1} (n = 2, one electron *)
-(* per spin) against UHF and GHF trials, two half-step matrices and two    *)
-(* HS pairs - small enough to be exhaustive, and overflow-free.            *)
-(***************************************************************************)
-FileInsts == ndJsonDeserialize(IOEnv.CPMC_INST)
-
-RM(A) == [i \in DOMAIN A |-> [j \in DOMAIN A[i] |-> RI(A[i][j])]]
-DVals   == {-1, 0, 1}
-DTrials == { <<<<1, 0>>, <<1, 0>>, <<0, 1>>, <<0, 1>>>>,           \* UHF, uniform density
-             <<<<2, 0>>, <<1, 0>>, <<0, 1>>, <<0, -1>>>>,          \* UHF, non-uniform density
-             <<<<1, 1>>, <<0, 1>>, <<1, 0>>, <<1, -1>>>>,          \* GHF
-             <<<<1, 0>>, <<1, 1>>, <<-1, 2>>, <<0, 1>>>> }         \* GHF
-DMats   == { <<<<2, 1>>, <<1, 2>>>>,                               \* 2 I + adjacency of the 2-chain
-             <<<<1, 1>>, <<0, 1>>>> }
-DHS     == { <<<<3, 2>>, <<1, 2>>>>, <<<<5, 4>>, <<3, 4>>>> }
-DCset   == << <<<<1, 2>>, <<-1, 2>>>>, <<<<-1, 2>>, <<1, 2>>>>, <<<<2, 1>>, <<-1, 3>>>>,
-              <<<<-1, 1>>, <<1, 2>>>>, <<<<-3, 2>>, <<1, 1>>>> >>
-DesignSet ==
-  { [id |-> 0, n |-> 2, nu |-> 1, nd |-> 1, c |-> RM(T),
-     wu |-> RM(<<<<x1>>, <<x2>>>>), wd |-> RM(<<<<y1>>, <<y2>>>>), w0 |-> ONE,
-     mu |-> RM(M), md |-> RM(M), hs |-> h, cset |-> DCset, pairs |-> TRUE,
-     lat |-> [kind |-> "chain", lx |-> 2, ly |-> 1], adj |-> ChainAdj(2)] :
-       x1 \in DVals, x2 \in DVals, y1 \in DVals, y2 \in DVals, T \in DTrials, M \in DMats, h \in DHS }
-DesignInsts == SetToSeq({I \in DesignSet : ~RIsZero(Ov(I, I.wu, I.wd))})
 =============================================================================
